@@ -121,7 +121,8 @@ def to_hashable(data: Any) -> Any:
     if isinstance(data, list):
         return tuple(map(to_hashable, data))
     elif isinstance(data, dict):
-        sorted_keys = sorted(data)
+        # keys can be of mixed types when data doesn't come from JSON
+        sorted_keys = sorted(data, key=lambda k: (k.__class__.__name__, repr(k)))
         return tuple(sorted_keys + [to_hashable(data[k]) for k in sorted_keys])
     else:
         return data
@@ -135,7 +136,10 @@ class UniqueItemsConstraint(Constraint):
         assert self.unique
 
     def validate(self, data: Any) -> bool:
-        return len(set(map(to_hashable, data))) == len(data)
+        try:
+            return len(set(map(to_hashable, data))) == len(data)
+        except TypeError:  # unhashable (thus not JSON-like) item
+            return all(data[i] != data[j] for i in range(len(data)) for j in range(i))
 
 
 @dataclass
